@@ -4,6 +4,7 @@ usage: tools/gen_detection_table.py [--write]   (without --write: print the bloc
 import glob, json, re, sys
 
 rows, own, neigh, out, missed_first, nm = [], 0, 0, 0, 0, 0
+outs = []
 metas = [json.load(open(p)) for p in sorted(glob.glob("/verif/seeded/*/meta.json"))]
 for m in metas:
     sid, prop = m["id"], m["property"]
@@ -17,6 +18,7 @@ for m in metas:
         neigh += 1
     else:
         out += 1
+        outs.append(sid)
     fa = m.get("first_attempt", "")
     first = "detected" if fa.startswith("detected") else "missed" if fa.startswith("missed") else "fault" if "fault" in fa else "n/m"
     if first in ("missed", "fault"):
@@ -31,7 +33,7 @@ block = [f"{missed_first} of the {len(metas)} changes escaped the checks as they
          "further dimension of the space, a finer canonical state key or a harness repair - never to a looser oracle.  "
          f"{own} are now",
          f"reported by the check of their own property, {neigh} by the check of a neighbouring property in whose space the mechanism",
-         f"lies (named in the table), and {out} (C02-a2) is outside the property's domain (see its verdict).", "",
+         f"lies (named in the table), and {out} ({', '.join(outs)}) lie outside the property's domain (see their verdicts).", "",
          "`first`: result of the first run of the quick check as it stood (n/m = not measured, fault = harness fault).", "",
          "| seed | reported by (quick tier) | first | what was strengthened / verdict |", "|---|---|---|---|"] + rows
 text = "\n".join(block)
